@@ -229,7 +229,10 @@ def r_onto_nopanic(F, R, cat=None):
     R.floor("R-ONTO", "clone_onto impls scanned for target-length-dependent panics", n, 20)
 
 
-def r_zip_byref(F, R, cat=None):
+ZIP_DEFAULT_NAMES = ("clone_onto", "into_owned", "push", "extend", "clone_from")
+
+
+def r_zip_byref(F, R, cat=None, names=ZIP_DEFAULT_NAMES):
     """`it.by_ref().zip(other)` polls `it` first: when `other` runs out, one element of `it` has
     already been taken and is lost for whatever consumes `it` afterwards.  Flag a zip whose *left*
     operand is a by_ref of an iterator that is used again later."""
@@ -239,7 +242,7 @@ def r_zip_byref(F, R, cat=None):
     for top in F.bodies.values():
         if top.kind not in ("AssocFn", "Fn") or top.in_tests() or top.derived:
             continue
-        if top.name not in ("clone_onto", "into_owned", "push", "extend", "clone_from"):
+        if top.name not in names:
             continue
         for ctx in all_ctxs(F, top):
             b = ctx.body
